@@ -736,10 +736,49 @@ def old_without_new(sig, th, events):
     return found, steps
 
 
+def fixed_named_models_theory():
+    """subset_rules.eql in miniature: constants naming two models and a morphism, rules deriving the
+    morphism's domain and codomain from the constants, a rule joining member facts of both models."""
+    th = {"name": "mt", "types": ["Ta", MODEL, MOR], "enums": [], "member": ["pa"], "seed": -1,
+          "preds": [{"name": "pa", "args": [MODEL, "Ta"]}, {"name": "both", "args": ["Ta"]}],
+          "funcs": [{"name": "ca", "args": [], "res": MODEL}, {"name": "cb", "args": [], "res": MODEL}, {"name": "cm", "args": [], "res": MOR},
+                    {"name": DOM, "args": [MOR], "res": MODEL}, {"name": COD, "args": [MOR], "res": MODEL}],
+          "rules": [
+              {"name": "in_both", "body": [_if(_p("pa", app("ca"), var("xa"))), _if(_p("pa", app("cb"), var("xa"))), _then(_p("both", var("xa")))]},
+              {"name": "cm_dom", "body": [_if(_eq(var("x"), app("ca"))), _if(_eq(var("f"), app("cm"))), _then(_eq(app(DOM, var("f")), var("x")))]},
+              {"name": "cm_cod", "body": [_if(_eq(var("y"), app("cb"))), _if(_eq(var("f"), app("cm"))), _then(_eq(app(COD, var("f")), var("y")))]}]}
+    th = json.loads(json.dumps(th))
+    th["text"] = render(th)
+    return th
+
+
+def fixed_cases():
+    """Hand-written scenarios (found by the thorough tier or taken from the repository's tests) that
+    every run replays under the same oracles as the generated histories: (theory, create, morph,
+    facts, [(variant name, ops)])."""
+    create = [["new", "Ta", "Ta0"], ["def", "ca", "Ma0"], ["def", "cb", "Ma1"], ["new", MODEL, "Ma2"], ["def", "cm", "MaMor0"]]
+    second = [["ins", COD, "MaMor0", "Ma2"]]
+    facts = [["ins", "pa", "Ma0", "Ta0"]]
+    c = [["close"]]
+    variants = [
+        ("all-at-once", create + second + facts + c),
+        ("fact-and-second-codomain-after-close", create + c + second + facts + c),
+        ("fact-closed-then-second-codomain", create + facts + c + second + c),
+        ("fact-closed-alone-then-second-codomain", create + c + facts + c + second + c),
+        ("second-codomain-closed-then-fact", create + second + c + facts + c),
+    ]
+    return [(fixed_named_models_theory(), create, second, facts, variants)]
+
+
 def c17_task(task):
     out = _empty_out()
     mt = task.get("family") == "member-type"
-    th = gen_member_type_theory(task["tseed"]) if mt else gen_model_theory(task["tseed"])
+    fixed = None
+    if task.get("family") == "fixed":
+        fixed = fixed_cases()[task["tseed"]]
+        th = fixed[0]
+    else:
+        th = gen_member_type_theory(task["tseed"]) if mt else gen_model_theory(task["tseed"])
     if th is None:
         _inc(out, "generated-theory-without-rules")
         return out
@@ -754,14 +793,17 @@ def c17_task(task):
             out.setdefault("notes", []).append(meta["stderr"][-400:])
         return out
     _cnt(out, "programs")
-    _cnt(out, "programs_with_member_type" if mt else "programs_member_relations_over_global_types")
+    _cnt(out, "fixed_scenarios" if fixed is not None else ("programs_with_member_type" if mt else "programs_member_relations_over_global_types"))
     rth = reference_theory(th)
     rng = random.Random(sha(str(task["tseed"]), str(task["seed"]), "c17"))
     hists = []
     groups = []
-    for i in range(task["factsets"]):
-        create, morph, facts = (gen_member_type_facts if mt else gen_model_facts)(rng, sig, th)
-        vs = timing_variants(rng, create, morph, facts, task["variants"])
+    for i in range(task["factsets"] if fixed is None else 1):
+        if fixed is not None:
+            _, create, morph, facts, vs = fixed
+        else:
+            create, morph, facts = (gen_member_type_facts if mt else gen_model_facts)(rng, sig, th)
+            vs = timing_variants(rng, create, morph, facts, task["variants"])
         tags = []
         for j, (vname, ops) in enumerate(vs):
             tag = "f%dv%d" % (i, j)
@@ -917,6 +959,7 @@ def c17(tier, replay=None):
     q = tier == "quick"
     n = 96 if q else 600
     tasks = [{"tseed": seed() * 100003 + 900000 + i, "seed": seed(), "factsets": 5 if q else 10, "variants": 8 if q else 9} for i in range(n)]
+    tasks += [{"tseed": i, "seed": seed(), "factsets": 1, "variants": 0, "family": "fixed"} for i in range(len(fixed_cases()))]
     nm = 48 if q else 300
     tasks += [{"tseed": seed() * 100003 + 960000 + i, "seed": seed(), "factsets": 5 if q else 10, "variants": 8 if q else 9, "family": "member-type"} for i in range(nm)]
     aggregate(res, pmap(c17_task, tasks))
